@@ -192,8 +192,73 @@ def r3(run):
     run.floor("cacache calls taking a directory", n, 8)
 
 
+def copy_loops(run):
+    """[(body, read_call)] for every `Read::read` / `AsyncReadExt::read` call that sits on a CFG cycle (a copy loop)."""
+    out = []
+    for b in run.facts.all_bodies():
+        if "::tests::" in b.def_:
+            continue
+        for c in b.calls():
+            if c.bb in b.live_blocks() and c.fn in ("std::io::Read::read", "tokio::io::util::async_read_ext::AsyncReadExt::read") and q.reaches(b, c.bb, c.bb):
+                out.append((b, c))
+    return out
+
+
+def r4(run):
+    loops = copy_loops(run)
+    run.floor("read/write copy loops feeding the CAS", len(loops), 1)
+    for (b, rd) in loops:
+        run.touch(b)
+        fn = run.facts.enclosing_fn(b)
+        cyc = {x for x in b.live_blocks() if (x == rd.bb or q.reaches(b, rd.bb, x)) and q.reaches(b, x, rd.bb)}
+        # comparisons of the byte count returned by this read with 0
+        eof_edges = []
+        for bb, si in b.switches():
+            if si["kind"] != "bool":
+                continue
+            cmp_ = q.comparison(si["cond"])
+            if not cmp_:
+                continue
+            rel, l, r = cmp_
+            k = q.const_int(r)
+            if k is None and q.const_int(l) is not None:
+                rel, l, r, k = q.SWAP[rel], r, l, q.const_int(l)
+            if k is None:
+                continue
+            if not any(y[0] == "call" and q.same_call(y[1], rd) for y in walk(l)):
+                continue
+            for truth in (True, False):
+                rr = q.rel_on_edge(rel, truth)
+                if (rr == "eq" and k == 0) or (rr == "lt" and k == 1) or (rr == "le" and k == 0):
+                    eof_edges += q.edge_triples(b, bb, lambda m, t=truth: m is t)
+        # exits of the cycle on normal (non-error) paths
+        exits = []
+        for x in cyc:
+            for (t, lab) in b.succ(x):
+                if t in cyc:
+                    continue
+                # only exits from which the CAS commit is reachable matter (error exits and dead ends are ignored)
+                reach = b.reachable_blocks([t])
+                if any(cc.bb in reach for cc in b.calls() if cc.fn in COMMITS):
+                    exits.append((x, t, lab))
+        bad = [e for e in exits if e not in eof_edges]
+        run.ob("%s|copy-loop|ends-only-at-eof" % fn, bool(eof_edges) and bool(exits) and not bad, rd.sp,
+               "the copy loop around %s is left (towards the CAS commit) only on the `bytes_read == 0` edge: a short read is not end of stream (%d exit edge(s), %d not EOF-guarded)" % (
+                   rd.fn.split("::")[-1], len(exits), len(bad)), reason="content-truncated")
+        # what is written is exactly buffer[..bytes_read]
+        ws = [c for c in b.calls() if c.bb in cyc and c.fn.endswith("write_all")]
+        okw = bool(ws)
+        for w in ws:
+            data = w.arg(1)
+            sl = [y for y in walk(data) if y[0] == "agg" and y[1].get("adt", "").endswith("RangeTo") and y[2] and any(z[0] == "call" and q.same_call(z[1], rd) for z in walk(y[2][0]))]
+            if not sl:
+                okw = False
+        run.ob("%s|copy-loop|writes-what-was-read" % fn, okw, rd.sp, "every iteration writes exactly buffer[..bytes_read] (%d write site(s))" % len(ws), reason="content-truncated")
+
+
 RULES = [
     ("R-C10-1", "a frame's hash originates only from a finished CAS commit (directly or through audited helpers) or None", rule_hash_provenance),
     ("R-C10-2", "HTTP append: a hash is produced only when bytes were written; POST /cas rejects empty bodies", r2),
     ("R-C10-3", "every cacache call uses the one CAS directory <store>/cacache", r3),
+    ("R-C10-4", "stream-to-CAS copy loops end only at EOF (read == 0) and write exactly the bytes read", r4),
 ]
